@@ -228,6 +228,202 @@ def _pickle_native(cap, keys, p, h):
 HLEN = 3
 
 
+# ------------------------------------------------------------------ concurrency at line granularity (E4b)
+import ast
+import inspect
+import textwrap
+
+CONC_OPS = ["get", "getitem", "set", "del", "contains", "clear"]
+_TARGETS = ["get", "clear", "__contains__", "__getitem__", "__setitem__", "__delitem__"]
+_INSTR = {}
+
+
+class ModelLock:
+    def __init__(self):
+        self.held = False
+
+
+class _Tx(ast.NodeTransformer):
+    """Turn each LRUCache method into a generator that yields at every statement boundary; `with self._wlock`
+    becomes acquire (yield 'blocked' while held) / try / finally release; self[key] and self[key] = v call the
+    instrumented __getitem__/__setitem__."""
+
+    def func(self, node):
+        node.name = "g_" + node.name.strip("_")
+        node.decorator_list = []
+        node.returns = None
+        for a in node.args.args:
+            a.annotation = None
+        node.body = self.block(node.body)
+        node.body.append(ast.parse("if 0: yield").body[0])
+        return node
+
+    def block(self, stmts):
+        out = []
+        for st in stmts:
+            if isinstance(st, ast.Expr) and isinstance(st.value, ast.Constant) and isinstance(st.value.value, str):
+                continue
+            out.append(ast.Expr(ast.Yield(ast.Constant("step"))))
+            out.extend(self.stmt(st))
+        return out or [ast.Pass()]
+
+    def stmt(self, st):
+        if isinstance(st, ast.With) and ast.unparse(st.items[0].context_expr) == "self._wlock":
+            body = self.block(st.body)
+            acquire = ast.parse("while self._wlock.held:\n    yield 'blocked'\nself._wlock.held = True").body
+            rel = ast.parse("self._wlock.held = False").body
+            return acquire + [ast.Try(body=body, handlers=[], orelse=[], finalbody=rel)]
+        if isinstance(st, ast.Try):
+            st.body = self.block(st.body)
+            for h in st.handlers:
+                h.body = self.block(h.body)
+            st.orelse = self.block(st.orelse) if st.orelse else []
+            st.finalbody = self.block(st.finalbody) if st.finalbody else []
+            return [self.calls(st)]
+        if isinstance(st, ast.If):
+            st.body = self.block(st.body)
+            st.orelse = self.block(st.orelse) if st.orelse else []
+            st.test = self.calls(st.test)
+            return [st]
+        return [self.calls(st)]
+
+    def calls(self, node):
+        class C(ast.NodeTransformer):
+            def visit_Subscript(s, n):
+                s.generic_visit(n)
+                if isinstance(n.value, ast.Name) and n.value.id == "self" and isinstance(n.ctx, ast.Load):
+                    return ast.parse(f"(yield from g_getitem(self, {ast.unparse(n.slice)}))", mode="eval").body
+                return n
+
+            def visit_Assign(s, n):
+                t = n.targets[0]
+                if isinstance(t, ast.Subscript) and isinstance(t.value, ast.Name) and t.value.id == "self":
+                    return ast.parse(f"yield from g_setitem(self, {ast.unparse(t.slice)}, {ast.unparse(n.value)})").body[0]
+                s.generic_visit(n)
+                return n
+        return ast.fix_missing_locations(C().visit(node))
+
+
+def _instrument():
+    if _INSTR:
+        return _INSTR
+    src = textwrap.dedent(inspect.getsource(LRUCache))
+    cls = ast.parse(src).body[0]
+    funcs = [_Tx().func(f) for f in cls.body if isinstance(f, ast.FunctionDef) and f.name in _TARGETS]
+    mod = ast.Module(body=funcs, type_ignores=[])
+    ast.fix_missing_locations(mod)
+    ns = {}
+    exec(compile(ast.unparse(mod), "<instrumented LRUCache from the current tree>", "exec"), ns)
+    _INSTR.update(ns)
+    return _INSTR
+
+
+def _gen_for(ns, c, op, k, v):
+    if op == "get":
+        return ns["g_get"](c, k, -1)
+    if op == "getitem":
+        return ns["g_getitem"](c, k)
+    if op == "set":
+        return ns["g_setitem"](c, k, v)
+    if op == "del":
+        return ns["g_delitem"](c, k)
+    if op == "contains":
+        return ns["g_contains"](c, k)
+    return ns["g_clear"](c)
+
+
+def _ref_apply(r, op, k, v):
+    try:
+        if op == "get":
+            return ("ok", r.get(k, -1))
+        if op == "getitem":
+            return ("ok", r.getitem(k))
+        if op == "set":
+            return ("ok", r.set(k, v))
+        if op == "del":
+            return ("ok", r.delete(k))
+        if op == "contains":
+            return ("ok", r._find(k) >= 0)
+        r.items.clear()
+        return ("ok", None)
+    except KeyError:
+        return ("KeyError", None)
+
+
+INITS = [[], [(1, 10)], [(1, 10), (2, 20)], [(2, 20), (1, 10)]]
+
+
+def conc_native(opa, ka, opb, kb, init, s1, s2):
+    """Thread A runs s1 steps, then B runs s2 steps, then A to completion, then B to completion (blocked threads yield
+    to the other).  The outcome must equal that of one of the two sequential orders on the reference LRU map."""
+    ns = _instrument()
+    c = LRUCache(2)
+    for k, v in INITS[init]:
+        c[k] = v
+    c._wlock = ModelLock()
+    gens = [_gen_for(ns, c, opa, ka, 100), _gen_for(ns, c, opb, kb, 200)]
+    res = [None, None]
+    plan = [(0, s1), (1, s2), (0, 10 ** 6), (1, 10 ** 6), (0, 10 ** 6)]
+    for who, budget in plan:
+        n = 0
+        while res[who] is None and n < budget:
+            try:
+                y = next(gens[who])
+            except StopIteration as e:
+                res[who] = ("ok", e.value)
+                break
+            except KeyError:
+                res[who] = ("KeyError", None)
+                break
+            except Exception as e:
+                return False  # "no call raises": IndexError / ValueError / RuntimeError ...
+            if y == "blocked":
+                break  # waiting for the lock: let the other thread run
+            n += 1
+    if res[0] is None or res[1] is None:
+        return False  # deadlock
+    try:
+        final = observe(c)[0]
+    except Exception:
+        return False
+    for order in ((0, 1), (1, 0)):
+        r = Ref(2)
+        for k, v in INITS[init]:
+            r.set(k, v)
+        exp = [None, None]
+        for who in order:
+            op, k, v = ((opa, ka, 100), (opb, kb, 200))[who]
+            exp[who] = _ref_apply(r, op, k, v)
+        if exp == res and r.items == final:
+            return True
+    return False
+
+
+def conc_ok(ka: int, kb: int, init: int, s1: int, s2: int) -> bool:
+    """
+    pre: 1 <= ka <= 2 and 1 <= kb <= 3 and (kb != 2 or P_CONC.get("allkeys")) and 0 <= init < NINIT() and 0 <= s1 <= MAXSTEP() and 0 <= s2 <= MAXSTEP()
+    post: _
+    """
+    a = 1 + pick(ka - 1, 2)
+    b = 1 + pick(kb - 1, 3)
+    i = pick(init, NINIT())
+    x = pick(s1, MAXSTEP() + 1)
+    y = pick(s2, MAXSTEP() + 1)
+    with NoTracing():
+        return conc_native(P_CONC.get("opa", "getitem"), a, P_CONC.get("opb", "clear"), b, i, x, y)
+
+
+P_CONC = {}
+
+
+def MAXSTEP():
+    return P_CONC.get("maxstep", 12)
+
+
+def NINIT():
+    return len(INITS) if P_CONC.get("allkeys") else 3
+
+
 def conditions(tier, seed):
     global HLEN
     thorough = tier == "thorough"
@@ -245,6 +441,11 @@ def conditions(tier, seed):
                     witnesses=[[2, [1, 0], 2, 0], [3, [2, 0, 1], 5, 2]],
                     bounds="pickle protocols 0..5, copy.copy, copy.deepcopy from any valid state (values derived from keys)"))
     hl = 4 if thorough else 2
+    for opa in CONC_OPS:
+        for opb in CONC_OPS:
+            out.append(Cond(f"concurrent[{opa} || {opb}]", "conc_ok", mode="B", param={"opa": opa, "opb": opb, "maxstep": 12 if thorough else 9, "allkeys": thorough}, timeout=to * 2,
+                            witnesses=[[1, 1, 2, 3, 2], [2, 3, 0, 0, 0], [1, 2, 3, 5, 9]],
+                            bounds="two threads, one call each on a capacity-2 cache in 4 initial states, keys 1..2 / 1..3; methods instrumented from the current source to yield at every statement, model lock; thread A runs s1 steps, B runs s2 steps, A finishes, B finishes (all s1, s2 up to the methods' length = every schedule with <= 2 preemptions); outcome must be one of the two sequential outcomes and no call may raise anything but KeyError"))
     out.append(Cond(f"history[len<={hl}]", "history_n", mode="A", param=dict(par, hlen=hl), timeout=(600 if thorough else 60),
                     witnesses=[[2, [2, 2, 2], [0, 1, 2], [1, 2, 3]], [1, [2, 0, 3], [0, 0, 0], [1, 2, 3]]],
                     bounds=f"histories of <= {hl} ops from empty over 7 operations; " + b))
@@ -280,5 +481,7 @@ _setup0 = setup
 def setup(param):  # noqa: F811
     global HLEN
     _setup0(param)
+    P_CONC.clear()
+    P_CONC.update({k: v for k, v in (param or {}).items() if k in ("opa", "opb", "maxstep", "allkeys")})
     if param and "hlen" in param:
         HLEN = param["hlen"]
